@@ -166,6 +166,9 @@ def causes(world: H.World, cfg: dict, cls: str, upto: int | None = None, exact_d
     log = world.log if upto is None else world.log[:upto]
     if cls == "decimal" and (not exact_domain or _tiny_negative_raised(log)):
         return "float"
+    if any(e.get("after_granted") for e in log if e["ev"] == "pass"):
+        # the engine itself allocated a job twice within one request: never a known finding
+        return "request-allocated-twice"
     if not H.history_conforms(world, upto)[0]:
         return "out-of-protocol"
     if any(e.get("stale_connector") for e in log if e["ev"] == "notify"):
